@@ -323,6 +323,16 @@ m("o30-balancer-list-published-without-atomic", "C05", "data-race", ("load_balan
 	}
 	lb.eventLoops.Store(&loops)"""))
 
+m("o31-writev-eats-into-the-callers-batch", "C02", "C02/", (CU,
+  """				rest := make([][]byte, 0, len(bs)-i)
+				rest = append(rest, bs[i][sent:])
+				rest = append(rest, bs[i+1:]...)
+				bs, pos = rest, 0
+				break""",
+  """				bs[i] = bs[i][sent:]
+				pos = i
+				break"""))
+
 
 def main():
     os.makedirs(OUT, exist_ok=True)
